@@ -199,7 +199,15 @@ func runC09(p *an.Prog, r *an.Run, tier string) {
 			bad = append(bad, "delete(remoteHosts, id) at "+p.Pos(dh.In.Pos())+" is unconditional: when a host has reconnected, closing its old connection unregisters the new one")
 		}
 	}
-	r.Check(len(bad) == 0, "stale-close", "(*pool.VipnodePool).CloseRemote", closeFn.Pos(), "the forward entry is removed only while it still maps to the closing connection", "%s", strings.Join(bad, "; "))
+	// no second site removes registry entries: an entry leaves the registry only because its own connection closed
+	// (CloseRemote's identity check) or because connect replaces it; removing by node id elsewhere (e.g. after a failed
+	// call over an old connection) unregisters a host that has reconnected meanwhile
+	for _, a := range acc {
+		if a.Kind == "delete" && a.Fn != closeFn && a.Fn != conn && !p.IsTestFunc(a.Fn) {
+			bad = append(bad, an.FuncName(a.Fn)+" removes an entry of "+a.Field+" at "+p.Pos(a.In.Pos())+" by key, outside CloseRemote's check that the entry still belongs to the closing connection")
+		}
+	}
+	r.Check(len(bad) == 0, "stale-close", "(*pool.VipnodePool).CloseRemote", closeFn.Pos(), "the forward entry is removed only while it still maps to the closing connection", "%s", strings.Join(dedup(bad), "; "))
 
 	// ---- registered-is-caller
 	bad = nil
@@ -269,6 +277,80 @@ func runC09(p *an.Prog, r *an.Run, tier string) {
 		}
 	}
 	r.Check(len(bad) == 0, "registered-is-caller", "(*pool.VipnodePool).connect", conn.Pos(), "remoteHosts[nodeID] = CtxService(ctx) and its reverse entry", "%s", strings.Join(dedup(bad), "; "))
+
+	// ---- serve-returns: the pool learns that a connection is gone when Remote.Serve returns. Once the codec reports
+	// the failure Serve must return at once: nothing that can block (waiting for in-flight handlers, channel
+	// operations, I/O) may sit between the failed read and the return, deferred calls included.
+	if sv := p.Method("jsonrpc2", "Remote", "Serve"); sv != nil {
+		r.Analysed(an.FuncName(sv))
+		var sbad []string
+		blocksIn := func(fn *ssa.Function) string {
+			why := ""
+			for _, f := range an.WithAnon(fn) {
+				an.AllInstrs(f, func(in ssa.Instruction) {
+					if why == "" {
+						if k := blockingKind(p, in); k != "" {
+							why = k + " at " + p.Pos(in.Pos())
+						}
+					}
+				})
+			}
+			return why
+		}
+		var starts []*ssa.BasicBlock
+		nRead := 0
+		for _, c := range an.Calls(sv, false) {
+			if f := an.CallObj(c); f != nil && f.Name() == "ReadMessage" {
+				nRead++
+				for _, e := range an.ErrEdges(c).Fail {
+					starts = append(starts, e.To)
+				}
+			}
+		}
+		if nRead == 0 || len(starts) == 0 {
+			sbad = append(sbad, "Serve does not branch on the failure of ReadMessage")
+		}
+		fr := an.ReachFrom(starts, nil)
+		for _, b := range starts {
+			fr[b] = true
+		}
+		for b := range fr {
+			for _, in := range b.Instrs {
+				if k := blockingKind(p, in); k != "" {
+					sbad = append(sbad, k+" at "+p.Pos(in.Pos())+" can run after the connection has failed, before Serve returns")
+				}
+				if c, ok := in.(*ssa.Call); ok {
+					if cal := c.Common().StaticCallee(); cal != nil && p.InRepo(cal) {
+						if w := blocksIn(cal); w != "" {
+							sbad = append(sbad, an.FuncName(cal)+" ("+w+") can run after the connection has failed, before Serve returns")
+						}
+					}
+				}
+			}
+		}
+		an.AllInstrs(sv, func(in ssa.Instruction) {
+			d, ok := in.(*ssa.Defer)
+			if !ok {
+				return
+			}
+			f := an.CallObj(d)
+			switch {
+			case f != nil && (an.IsMethod(f, "sync", "WaitGroup", "Wait") || an.IsFunc(f, "time", "Sleep") || an.IsMethod(f, "sync", "Cond", "Wait")):
+				sbad = append(sbad, "Serve defers "+an.ObjString(f)+" ("+p.Pos(d.Pos())+"): its return, and with it the pool's disconnect hook, waits for in-flight handlers; requests starting meanwhile still call the closed connection")
+			default:
+				for _, cal := range p.CalleesAt(d) {
+					if p.InRepo(cal) {
+						if w := blocksIn(cal); w != "" {
+							sbad = append(sbad, "Serve defers "+an.FuncName(cal)+", which blocks ("+w+")")
+						}
+					}
+				}
+			}
+		})
+		r.Check(len(sbad) == 0, "serve-returns", an.FuncName(sv), sv.Pos(), "Serve returns as soon as the codec fails", "%s", strings.Join(dedup(sbad), "; "))
+	} else {
+		r.Undec("serve-returns", "jsonrpc2.Remote.Serve", token.NoPos, "anchor not found")
+	}
 
 	// ---- disconnect-hook
 	// the function of the HTTP handler type that runs the connection's serve loop (ServeHTTP itself, or a helper it was moved to)
